@@ -438,25 +438,28 @@ class Corr:
         if self.N != 1:
             raise NotImplementedError("Multi-operator Prony not implemented!")
 
-        array = np.empty([N, N], dtype="object")
-        new_content = []
-        for t in range(self.T):
-            new_content.append(array.copy())
-
         def wrap(i):
             while i >= self.T:
                 i -= self.T
             return i
 
+        new_content = []
         for t in range(self.T):
+            if periodic:
+                indices = [[wrap(t + i + j) for j in range(N)] for i in range(N)]
+            elif t + 2 * (N - 1) >= self.T and N > 1:
+                new_content.append(None)
+                continue
+            else:
+                indices = [[t + i + j for j in range(N)] for i in range(N)]
+            if any(self.content[k] is None for row in indices for k in row):
+                new_content.append(None)
+                continue
+            array = np.empty([N, N], dtype="object")
             for i in range(N):
                 for j in range(N):
-                    if periodic:
-                        new_content[t][i, j] = self.content[wrap(t + i + j)][0]
-                    elif (t + i + j) >= self.T:
-                        new_content[t] = None
-                    else:
-                        new_content[t][i, j] = self.content[t + i + j][0]
+                    array[i, j] = self.content[indices[i][j]][0]
+            new_content.append(array)
 
         return Corr(new_content)
 
